@@ -331,3 +331,68 @@ def selector_table(nf: NF, mi, cfg, items, pred_ast, label_true, label_false, op
                     return None, f"selection also depends on {sorted(extra)[:2]}"
                 return False, {str(k[1:] if k[0] == 'pair' else k[1]): v for k, v in val.items()}
     return True, None
+
+
+TREE_MAPS = ("jax.tree.map", "jax.tree_util.tree_map", "jax.tree_map", "jax.tree_util.tree_multimap")
+
+
+def _strip_none_guards(e):
+    """`None if x is None else E` / `E if x is not None else None` -> E (pytree leaves that are None stay None)."""
+    if isinstance(e, ast.IfExp) and isinstance(e.test, ast.Compare) and len(e.test.ops) == 1 and isinstance(e.test.ops[0], (ast.Is, ast.IsNot)) \
+            and isinstance(e.test.comparators[0], ast.Constant) and e.test.comparators[0].value is None:
+        none_arm, other = (e.body, e.orelse) if isinstance(e.test.ops[0], ast.Is) else (e.orelse, e.body)
+        if isinstance(none_arm, ast.Constant) and none_arm.value is None:
+            return _strip_none_guards(other)
+    return e
+
+
+def leaf_application(repo, mi, fexpr, trees, cfg=None, at=None):
+    """Expression computed for one tuple of leaves by `tree_map(fexpr, *trees)`: the leaf function's result with its parameters
+    replaced by the tree expressions (leaf-wise reading).  fexpr: lambda, repo function, functools.partial over one of them, or a
+    local name bound once to one of these.  Raises AnalysisError when the leaf function cannot be read."""
+    from .expand import _as_expression, _Rename, clone
+    prefix, kws = [], {}
+    f = fexpr
+    for _ in range(4):
+        if isinstance(f, ast.Name) and cfg is not None and at is not None:
+            ds = cfg.defs_of(at, f.id)
+            if len(ds) == 1 and ds[0].kind == "assign" and isinstance(ds[0].value, (ast.Lambda, ast.Call, ast.Name, ast.Attribute)):
+                f, at = ds[0].value, ds[0].node
+                continue
+        if isinstance(f, ast.Call) and repo.resolve_expr(mi, f.func) in ("functools.partial", "jax.tree_util.Partial"):
+            prefix = list(f.args[1:]) + prefix
+            kws.update({k.arg: k.value for k in f.keywords if k.arg})
+            f = f.args[0]
+            continue
+        break
+    if isinstance(f, ast.Lambda):
+        a, body = f.args, f.body
+    else:
+        q = repo.resolve_expr(mi, f) if isinstance(f, (ast.Name, ast.Attribute)) else None
+        if not (q and q.startswith(repo.PKG + ".") and repo.has(q)):
+            raise AnalysisError(f"leaf function `{short(fexpr, 60)}` of the tree map cannot be read")
+        _, fn = repo.lookup(q)
+        if not isinstance(fn, ast.FunctionDef):
+            raise AnalysisError(f"leaf function `{short(fexpr, 60)}` is not a function")
+        a = fn.args
+        body = _as_expression([x for x in fn.body if not (isinstance(x, ast.Expr) and isinstance(x.value, ast.Constant))], {})
+        if body is None:
+            raise AnalysisError(f"leaf function {q} is not a single expression")
+    params = [x.arg for x in a.posonlyargs + a.args]
+    binding = dict(zip(params, prefix + list(trees)))
+    for k, v in kws.items():
+        if k in binding:
+            raise AnalysisError(f"leaf function `{short(fexpr, 60)}`: parameter {k} bound twice")
+        binding[k] = v
+    defaults = dict(zip(params[len(params) - len(a.defaults):], a.defaults))
+    for x, d in zip(a.kwonlyargs, a.kw_defaults):
+        if x.arg not in binding and d is not None:
+            defaults[x.arg] = d
+    for p in params + [x.arg for x in a.kwonlyargs]:
+        if p not in binding:
+            if p in defaults:
+                binding[p] = defaults[p]
+            else:
+                raise AnalysisError(f"leaf function `{short(fexpr, 60)}`: parameter {p} is not bound by the tree map")
+    out = _Rename(binding).visit(clone(body))
+    return _strip_none_guards(ast.fix_missing_locations(out))
